@@ -29,6 +29,13 @@ A_SPECIAL = ["intro\n", "intro\n\n# title\n", "# title\n", "- a\n\npara\n", "> q
              "```\nf\n```\n", "***\n", "[x]: /u\n\npara\n"]
 
 
+# every block opener directly followed (no blank line) by every line whose reading depends on what it would interrupt
+OPENERS = ["> q\n", "# h\n", "***\n", "|a|b|\n|-|-|\n|1|2|\n", "|a|\n|-|\n", "```\nx\n```\n", "<div>\n", "[r]: /u\n", "- a\n", "1. a\n", "para\n",
+           "    code\n", "a\n===\n", "> - a\n", "- > a\n", "<!-- c -->\n"]
+FOLLOWERS = ["2. x\n", "-\n", "7) x\n", "===\n", "---\n", "lazy\n", "    code\n", "1. x\n", "- x\n", "> q\n", "# h\n", "|c|d|\n", "<div>\n",
+             "[r2]: /v\n", "```\n", "1.\n", "*\n", "10. x\n"]
+
+
 def blk(ts, dm=0):
     out = []
     for t in ts:
@@ -73,9 +80,15 @@ def run(ctx: Ctx) -> None:
     for A in A_SPECIAL:
         for B in B_SPECIAL:
             one(A, B)
+    for A in (A_SPECIAL if not quick else A_SPECIAL[:4] + A_SPECIAL[8:9]):
+        for o in OPENERS:
+            for f in FOLLOWERS:
+                one(A, o + f)
+                if not quick:
+                    one(A, o + f + rng.choice(FOLLOWERS))
     for i in range(n):
-        A = (rng.choice(A_SPECIAL) if i % 3 == 0 else gens.rand_doc(rng, 4)).replace("\t", " ").replace("\r", "").replace("\x00", "")
-        B = (rng.choice(B_SPECIAL) if i % 2 == 0 else gens.rand_doc(rng, 4)).replace("\t", " ").replace("\r", "").replace("\x00", "")
+        A = (rng.choice(A_SPECIAL) if i % 3 == 0 else gens.struct_doc(rng, 1) if i % 3 == 1 else gens.rand_doc(rng, 4)).replace("\t", " ").replace("\r", "").replace("\x00", "")
+        B = (rng.choice(B_SPECIAL) if i % 4 == 0 else gens.struct_doc(rng, 1) if i % 4 == 2 else gens.rand_doc(rng, 4)).replace("\t", " ").replace("\r", "").replace("\x00", "")
         if not A.endswith("\n"):
             A += "\n"
         if not B.endswith("\n"):
@@ -91,14 +104,14 @@ def run(ctx: Ctx) -> None:
         monitor.instrument(m, mon)
         mmds.append(m)
     for i in range(400 if quick else 8000):
-        A, B = rng.choice(A_SPECIAL), rng.choice(B_SPECIAL)
+        A, B = rng.choice(A_SPECIAL), (rng.choice(B_SPECIAL) if i % 2 else rng.choice(OPENERS) + rng.choice(FOLLOWERS))
         try:
             mmds[i % len(mmds)].parse(A + "\n" + B)
             mmds[i % len(mmds)].parse(gens.rand_doc(rng, 6))
         except Exception:
             pass
     for v in mon.violations[:10]:
-        if v["what"].startswith(("K4", "K3", "K2")):
+        if v["what"].startswith(("K4", "K3", "K2", "K6")):
             ctx.mismatch("rule contract violated on the implementation: " + v["what"], {k: (w if not isinstance(w, str) else w[:400]) for k, w in v.items()})
     drv = Driver()
     try:
@@ -111,10 +124,13 @@ def run(ctx: Ctx) -> None:
     finally:
         drv.close()
     ctx.cov["rule_calls_monitored"] = mon.calls
+    ctx.cov["parentType_seen_by_silent_calls"] = {f"{a}:{b}": n_ for (a, b), n_ in sorted(mon.silent_parent.items())}
+    ctx.cov["rules_testing_parentType"] = list(mon.readers)
     ctx.partial += [
         "C07.concat itself (prefix independence: appending blank + B does not change how A parses; suffix independence: B "
-        "parses as it does alone) needs a look-ahead-locality lemma per rule and the fact that parentType/tight are never read "
-        "stale: decided by the oracle; the frame and staging theorems are proved at engine level under the monitored contracts",
+        "parses as it does alone) needs a look-ahead-locality lemma per rule and the fact that tight is never read stale: decided by the oracle "
+        "(parentType: every terminator-running rule pins it — theorem pins_cover over the regenerated table — and the monitor "
+        "checks on each real silent call that the value seen is the caller's pin, K6); the frame and staging theorems are proved at engine level under the monitored contracts",
     ]
 
 
@@ -122,7 +138,7 @@ def search(ctx: Ctx):
     c = Ctx(ctx.pid, "quick", ctx.seed + 31)
     mds = [(gens.make_md(cf), cf) for cf in (gens.FIXED_CFGS[0], gens.FIXED_CFGS[1])]
     for A in A_SPECIAL:
-        for B in B_SPECIAL:
+        for B in B_SPECIAL + [o + f for o in OPENERS for f in FOLLOWERS]:
             for md, cfg in mds:
                 try:
                     if law(md, A, B) is False:
